@@ -118,9 +118,31 @@ impl sval::Value for Reent {
     }
 }
 
+/// A type with a Display impl only / a Debug impl only (captured with from_display / from_debug).
+#[derive(Clone, PartialEq)]
+pub struct DispOnly(pub String);
+impl std::fmt::Display for DispOnly {
+    fn fmt(&self, f: &mut std::fmt::Formatter) -> std::fmt::Result {
+        write!(f, "<<{}>>", self.0)
+    }
+}
+impl std::fmt::Debug for DispOnly {
+    fn fmt(&self, f: &mut std::fmt::Formatter) -> std::fmt::Result {
+        f.write_str("DispOnly(..)")
+    }
+}
+#[derive(Clone, Debug, PartialEq)]
+pub struct DbgOnly {
+    pub n: i64,
+    pub s: String,
+    pub list: Vec<f64>,
+}
+
 #[derive(Debug, Clone)]
 pub enum CV {
     Reent(Reent),
+    Disp(DispOnly),
+    Dbg(DbgOnly),
     Null,
     Bool(bool),
     I64(i64),
@@ -181,6 +203,14 @@ impl CV {
             CV::F64(v) => emit::Value::from(*v),
             CV::Str(v) => emit::Value::from(v.as_str()),
             CV::Err(e) => emit::Value::capture_error(e),
+            CV::Disp(d) => match fw {
+                Fw::Sval => emit::Value::from_display(d),
+                Fw::Serde => emit::Value::capture_display(d),
+            },
+            CV::Dbg(d) => match fw {
+                Fw::Sval => emit::Value::from_debug(d),
+                Fw::Serde => emit::Value::capture_debug(d),
+            },
             CV::Reent(r) => match fw {
                 Fw::Sval => emit::Value::from_sval(r),
                 Fw::Serde => emit::Value::capture_display(r),
@@ -201,6 +231,8 @@ impl CV {
         Some(match self {
             CV::Str(s) => s.clone(),
             CV::Reent(r) => r.text(),
+            CV::Disp(d) => d.to_string(),
+            CV::Dbg(d) => format!("{d:?}"),
             CV::Enum(En::Unit) => "Unit".to_string(),
             CV::Err(e) => e.msg.clone(),
             CV::Level(l) => l.to_string(),
@@ -227,6 +259,8 @@ impl CV {
         match self {
             CV::Null => json!(null),
             CV::Reent(r) => json!({"reentrant": r.id}),
+            CV::Disp(d) => json!({"display_only": d.to_string()}),
+            CV::Dbg(d) => json!({"debug_only": format!("{d:?}")}),
             CV::Bool(b) => json!({"bool": b}),
             CV::I64(v) => json!({"i64": v.to_string()}),
             CV::U64(v) => json!({"u64": v.to_string()}),
@@ -255,6 +289,8 @@ impl sval::Value for CV {
         match self {
             CV::Null => stream.null(),
             CV::Reent(r) => stream.value(r),
+            CV::Disp(d) => sval::stream_display(stream, d),
+            CV::Dbg(d) => sval::stream_display(stream, format_args!("{d:?}")),
             CV::Bool(v) => stream.bool(*v),
             CV::I64(v) => stream.i64(*v),
             CV::U64(v) => stream.u64(*v),
@@ -303,6 +339,8 @@ impl serde::Serialize for CV {
         match self {
             CV::Null => s.serialize_unit(),
             CV::Reent(r) => s.collect_str(r),
+            CV::Disp(d) => s.collect_str(d),
+            CV::Dbg(d) => s.collect_str(&format_args!("{d:?}")),
             CV::Bool(v) => s.serialize_bool(*v),
             CV::I64(v) => s.serialize_i64(*v),
             CV::U64(v) => s.serialize_u64(*v),
@@ -346,7 +384,7 @@ pub struct Pool {
 }
 
 const I64S: &[i64] = &[0, 1, -1, 42, i64::MAX, i64::MIN, i32::MAX as i64, i32::MIN as i64, 255, -128, 1 << 53, -(1 << 53) - 1];
-const F64S: &[f64] = &[
+pub const F64S: &[f64] = &[
     0.0, -0.0, 1.5, -1.5, 0.1, f64::MIN_POSITIVE, 5e-324, f64::MAX, f64::MIN, f64::EPSILON, 1e300, -1e-300, 1e21, 1e-7,
     123456789.125, 9007199254740993.0, 4.35, 2.2250738585072011e-308,
 ];
@@ -457,6 +495,8 @@ impl Pool {
             "Inf" => CV::F64(if self.rng.below(2) == 0 { f64::INFINITY } else { f64::NEG_INFINITY }),
             "Str" => CV::Str(self.string()),
             "Reent" => CV::Reent(Reent { id: self.rng.next() % 1_000_000_000_000 }),
+            "DispVal" => CV::Disp(DispOnly(match self.rng.below(3) { 0 => self.pick(UNIS).to_string(), 1 => self.pick(CTLS).to_string(), _ => self.pick(STRS).to_string() })),
+            "DbgVal" => CV::Dbg(DbgOnly { n: self.i64(), s: self.pick(UNIS).to_string(), list: (0..self.rng.below(3)).map(|_| self.f64()).collect() }),
             "StrCtl" => CV::Str(self.pick(CTLS).to_string()),
             "StrUni" => CV::Str(self.pick(UNIS).to_string()),
             "Bytes" => CV::Bytes(match self.rng.below(5) {
